@@ -11,6 +11,16 @@ CHECKS = {
    note="Bounded depth and universes; operations that raise are not part of a history (C08); states with ill-typed references are out of scope; observation tables written from doc/tutorial/references.rst.",
    ref="3 C02", engine="H"),
 }
+CHECKS["C07"] = dict(
+   technique="bounded-exhaustive enumeration of input strings / single-point mutations / API strings executed on the real parser, oracle = exception class",
+   text="Every string of length <= 3 (all 20 vlevel x version x dialect configurations) and <= 4 quick / <= 5 thorough (reduced configurations) over a 22-symbol critical alphabet is offered as a line and as a document; every single-point mutation (replace/delete/insert over 15 symbols) of a corpus of valid lines and documents of every record type; every string of length <= 3 over 10 symbols through 22 public API entry points; file variants and bin/gfapy-validate. A call must return or raise a gfapy.Error; violations are fingerprinted by (exception class, innermost gfapy file:function of the root cause).",
+   note="Alphabets and lengths as stated in the evidence; non-termination approximated by a 3 s per-call budget; undecodable (non-UTF-8) files and OSError are outside the claim.",
+   ref="3 C07", engine="I")
+CHECKS["C04"] = dict(
+   technique="bounded-exhaustive language comparison: every short string per datatype + structure tables + single-point mutations, implementation acceptance vs independent recogniser",
+   text="For each of the 7 tag datatypes and 22 positional datatypes every string of length <= 4 (quick) / <= 5 (thorough) over a ~10-symbol critical alphabet (plus boundary values) is hosted in an otherwise valid line; line-structure tables (field counts, tag names, duplicate tags, predefined tag x datatype, LN x sequence, path segments x overlaps, begin/end pairs), every single-point mutation of a corpus line, and document-rule tables (references defined, `$` vs segment length, rGFA) are evaluated at vlevel 1,2,3. gfapy accepts (construction + validate() + clean written form) iff gfamc/ref/grammar.py accepts; the third outcome (accepted, then flagged invalid) is a violation.",
+   note="Trusted base: the reference recogniser gfamc/ref/grammar.py (anchored on the repository's test data in C01's self-test); no tab/newline inside field values; abstains where the property leaves `$` usage open.",
+   ref="3 C04", engine="I")
 NOT_BUILT = {}
 
 def main():
